@@ -19,7 +19,10 @@ def front_check(PROP, THEOREMS, tier, seed, gen_kw=None, extra_modules=("Model.A
                 nspell=3, replay=None, extra_suites=None, focus=None, skip_include_scope=False):
     run = Run(PROP, tier, seed, "proof")
     rng = random.Random(seed)
-    info, problems = proof_gate(PROP, THEOREMS, extra_modules=list(extra_modules), thorough=(tier == "thorough"))
+    if THEOREMS and isinstance(THEOREMS[0], str):
+        info, problems = proof_gate_multi(THEOREMS, thorough=(tier == "thorough"))
+    else:
+        info, problems = proof_gate(PROP, THEOREMS, extra_modules=list(extra_modules), thorough=(tier == "thorough"))
     for p in problems:
         run.tie("proof gate", p)
     drv = build_driver()
